@@ -20,32 +20,32 @@ import (
 
 // OpRec is one harness-level operation (an SDK call made on behalf of a simulated client).
 type OpRec struct {
-	Idx     int
-	Kind    string
-	Proc    int
-	Part    string
-	T0, T1  time.Duration
-	Calls   int // seam calls made inside this operation (metastore, KMS, AEAD, secret factory)
-	MSCalls int
-	KMSCalls int
-	Faulted int // faults fired inside this operation
+	Idx       int
+	Kind      string
+	Proc      int
+	Part      string
+	T0, T1    time.Duration
+	Calls     int // seam calls made inside this operation (metastore, KMS, AEAD, secret factory)
+	MSCalls   int
+	KMSCalls  int
+	Faulted   int // faults fired inside this operation
 	FaultDesc []string
-	Err     error
-	Panic   string
+	Err       error
+	Panic     string
 }
 
 // CallRec is one call at an external seam.
 type CallRec struct {
-	Seq     int
-	Op      *OpRec
-	Proc    int
-	Class   string // ms.load ms.latest ms.store kms.enc kms.dec aead.enc aead.dec sf.new sf.rand
-	ID      string
-	Created int64
-	T0, T1  time.Duration
-	Fault   string
-	Result  string // ok / nil / dup / err
-	Revoked bool   // for loads: the revoked flag the SDK was shown
+	Seq        int
+	Op         *OpRec
+	Proc       int
+	Class      string // ms.load ms.latest ms.store kms.enc kms.dec aead.enc aead.dec sf.new sf.rand
+	ID         string
+	Created    int64
+	T0, T1     time.Duration
+	Fault      string
+	Result     string // ok / nil / dup / err
+	Revoked    bool   // for loads: the revoked flag the SDK was shown
 	RetCreated int64
 	Parent     int64 // created stamp of the parent key named by the row loaded / stored (0 if none)
 }
@@ -81,17 +81,17 @@ type FaultPlan struct {
 	MaxPerOp int
 	Kinds    map[string]bool // enabled: ms.err ms.errafter ms.falsedup kms.err aead.err alloc.err rand.err latency
 	// sweep mode: fault the SweepCall-th seam call (0-based, counted over all classes) of operation SweepOp
-	SweepOp   int
-	SweepCall int
-	SweepKind string // err-before / err-after / false-dup
-	Sweep2Call int   // optional second fault (-1 = none)
+	SweepOp    int
+	SweepCall  int
+	SweepKind  string // err-before / err-after / false-dup
+	Sweep2Call int    // optional second fault (-1 = none)
 	Sweep2Kind string
 	// partition window: every metastore/KMS call of these procs fails
 	Partitioned map[int]bool
 	// bookkeeping
-	Fired     map[string]int
+	Fired       map[string]int
 	LastFaultOp int
-	Off       bool // master switch (faults stop)
+	Off         bool // master switch (faults stop)
 }
 
 func newFaultPlan() *FaultPlan {
